@@ -106,6 +106,9 @@ pub fn threads() -> usize {
 
 const HANG_SECS: u64 = 30;
 
+/// chunk journal of the running process (`LQV_CRASHFILE`), read by the parent if this process dies
+static CRASHLOG: std::sync::OnceLock<Option<Mutex<std::fs::File>>> = std::sync::OnceLock::new();
+
 /// Exhaustive parallel loop over case indices `0..n`.  A watchdog reports a
 /// case that does not complete within `HANG_SECS` as a `hang` violation of the
 /// running property (with `describe(idx)` as witness) and ends the run.
@@ -114,6 +117,33 @@ where
     F: Fn(u64) + Sync,
     D: Fn(u64) -> serde_json::Value + Sync,
 {
+    // ---- abort attribution (see lqv/src/main.rs): probe / describe modes of a child process
+    if let Ok(spec) = std::env::var("LQV_DESCRIBE") {
+        if let Some((fam, idx)) = spec.split_once('\t') {
+            if fam == family {
+                let idx: u64 = idx.parse().unwrap_or(0);
+                println!("{}", describe(idx.min(n.saturating_sub(1))));
+                std::process::exit(0);
+            }
+        }
+        return;
+    }
+    if let Ok(spec) = std::env::var("LQV_PROBE") {
+        let parts: Vec<&str> = spec.split('\t').collect();
+        if parts.len() == 3 && parts[0] == family {
+            let (a, b): (u64, u64) = (parts[1].parse().unwrap_or(0), parts[2].parse().unwrap_or(0));
+            let path = std::env::var("LQV_CRASHFILE").unwrap_or_default();
+            for i in a..b.min(n) {
+                // the index is on disk before the case runs: if the process dies, the file names the culprit
+                let _ = std::fs::write(&path, format!("{i}\n"));
+                f(i);
+            }
+            let _ = std::fs::write(&path, "done\n");
+            std::process::exit(0);
+        }
+        return;
+    }
+    let crashlog = CRASHLOG.get_or_init(|| std::env::var("LQV_CRASHFILE").ok().and_then(|p| std::fs::OpenOptions::new().create(true).append(true).open(p).ok()).map(Mutex::new));
     let nthreads = threads().max(1);
     let next = AtomicU64::new(0);
     let chunk: u64 = if n > 4_000_000 {
@@ -144,6 +174,12 @@ where
                     break;
                 }
                 let end = (start + chunk).min(n);
+                if let Some(log) = crashlog {
+                    use std::io::Write;
+                    if let Ok(mut fh) = log.lock() {
+                        let _ = writeln!(fh, "{family}\t{start}\t{end}");
+                    }
+                }
                 for i in start..end {
                     slots[t]
                         .1
